@@ -3,20 +3,62 @@
   theorems are meant to be re-exported in Properties/C05, C07, C17, C04, C09.  Everything is about the model.
 
   (S3) EXPORT C05.  `PlAssoc` / `PlMsg` (PaiLines) and `HxAssoc` (HnoExact) compare a value with the `val` of its header line
-       only IF that line is stored in the header array; when the array overflows the line index is not pinned.  Here the
-       line index is PINNED: `afcTrace` / `afcMsgLines` is a FUNCTION of the input (no existential): the list of the header
-       objects ParseHdrLine returned for ALL the accepted lines of the block, stored or not.
-       `AfcMsg gs m` (with `gs = afcMsgLines …`): `gs.length = HdrLst.N`; every stored header IS `gs[j]`; and for the
-       Contact list and the identity list `AfcAssoc`: the lines of the type in `gs` are exactly `HNo` many, there are
-       counts (one per such line, each ≥ 1, sum `N`) such that the values of the `i`-th line of the type are those in the
-       `i`-th block of the cumulative counts and every STORED value of the block has at least one byte and lies inside
-       the `val` of THAT line — whether or not the line is stored.
-       `afc_parseHeaders`, `afc_parseSIPMsg`, `afc_values_pinned_init`, `afc_values_pinned_schedule_init`.
-       `AfcAssoc.map`: the map form (monotone `f`, `f k < gs.length`, line `f k` has the type, the value lies inside its
-       `val` UNCONDITIONALLY, every line of the type is hit).  `AfcMsg.plMsg`: it implies `PlMsg`.
-       `afcEx_*`: header capacity 1, contact capacity 4, two Contact lines: the old statement accepts the constant map
-       (`afcEx_old_accepts_const`), the pinned one refutes it (`afcEx_const_refuted`) and refutes the wrong counts `[1, 2]`
-       (`afcEx_wrong_counts_refuted`); the right counts are `[2, 1]`.
+       only IF that line is stored in the header array; when the array overflows the line index is not pinned (`PlAssoc`
+       accepts the constant map `f = N - 1`; `HxAssoc` accepts wrong counts for lines that are not stored).  Here the
+       line index is PINNED.  `afcTrace` / `afcMsgLines b o m` is a FUNCTION of the input (no existential): the list of the
+       header objects ParseHdrLine returned for ALL the accepted lines of the block, stored or not.
+       * `AfcMsg gs m` (with `gs = afcMsgLines …`): `gs.length = HdrLst.N`; every stored header IS `gs[j]` (`AfcStored`); and
+         for the Contact list and the identity list `AfcAssoc`: the lines of the type in `gs` are exactly `HNo` many, there
+         are counts (one per such line, each ≥ 1, sum `N`) such that the values of the `i`-th line of the type are those in
+         the `i`-th block of the cumulative counts, and every STORED value of the block has at least one byte and lies
+         inside the `val` of THAT line — whether or not the line is stored.
+       * `afc_parseHeaders` (one ParseHeaders call), `afc_parseSIPMsg`, `afc_values_pinned_init` (one ParseSIPMsg call on an
+         Init object, any capacities, EVERY input ≤ 65,535 bytes), `afc_values_pinned_schedule_init` (every chunk schedule:
+         in the buffer of the call that finished, a prefix of the last one), `afc_values_pinned_last` (every chunk schedule,
+         relative to the accepted lines of the LAST buffer `B`: `afc_trace_app`, `afc_msgLines_app` — the list of
+         accepted lines does not change when bytes are appended).
+       * `afc_trace_chain`, `afc_msgLines_chain`: the list IS the chain of lines of the text (`HsChain`: each entry has the
+         name as written and the type of that name; the chain starts where the first line ends) and the final header
+         list object is what accepting exactly these entries, in order, produces.
+       * `AfcAssoc.map` / `AfcMsg.meaning`: the map form (monotone `f`, `f k < gs.length`, line `f k` has the type, the value
+         lies inside its `val` UNCONDITIONALLY, every line of the type is hit).  `AfcMsg.plMsg`, `AfcAssoc.plAssoc`,
+         `AfcAssoc.hxAssoc`: the pinned statement implies both older ones.
+       * `afcEx_*` (tests): header capacity 1, contact capacity 4, two Contact lines (2 + 1 values) and a CSeq line: the
+         statement of PaiLines accepts the constant map (`afcEx_old_accepts_const`); the pinned one is satisfied by NO
+         constant map (`afcEx_const_refuted`), refutes the wrong counts `[1, 2]` (`afcEx_wrong_counts_refuted`) and
+         determines the counts: `[2, 1]` (`afcEx_counts_determined`).
+  (S10) EXPORT C17.  `afc_badChar_prefix_extends`, `afc_badChar_call_extends`: `BadChar` at `p` ⇒ `p < len(b)` and there are at
+       most FIVE bytes `s` with `b[0:p] ++ s` holding a parameter of the grammar at `o` (witness explicit);
+       `afc_moreBytes_extends`: `MoreBytes` ⇒ at most SIX bytes `s` with `b ++ s` holding one.
+  (S9) EXPORT C04 / C05, on the LAST buffer `B` of the schedule (`l.getLast? = some B`):
+       `afc_sig_never_panics_last(_from)` (`AfcSigLast B m'`: GetMsgSig does not panic on `B`, nor on any extension of `B`,
+       same result; in the completed states `len(msg.Buf) ≤ len(B)`), any verdict;  `afc_msg_trim_last` (trimming of
+       From / To / Contact / identity values read in `B`; `len(msg.Buf)` = returned offset `≤ len(B)`).
+  (S8) EXPORT C09.  `afc_msg_lists_init`, `afc_msg_lists_schedule_init`, `afc_msg_lists_schedule_whole`: `rc_msg_lists_init`
+       and its schedule forms WITH the first-line conjunct (`(parseFLine b o {}).1 = o1`, verdict OK; in the `_whole`
+       form ParseFLine is run on `B` itself).
+  (S4) EXPORT C07.  `AfcGenericIn b o e hb`: the generic-treatment hypothesis restricted to the line starts BELOW `e`
+       (`HsGeneric.afc_in`: it follows from `HsGeneric`).  `afc_block_sound_in`, `afc_block_ok_iff_in` (one call),
+       `afc_block_sound_schedule(_from)`, `afc_block_ok_iff_schedule`, `afc_block_report_schedule` (every chunk schedule,
+       whole buffer `B`): the theorems of HdrSound / ResumedConverse with `HsGeneric B o hb` replaced by
+       `AfcGenericIn B o e hb`, `e` the returned / claimed end of the block — nothing is assumed about the bytes from `e`
+       on.  Test `afcExG`: a block followed by a body line that starts with `From`: `HsGeneric` fails
+       (`afcExG_not_generic`), the restricted hypothesis holds (`afcExG_generic_in`) and the theorems apply.
+  (S6) EXPORT C17.  `PVMoreAt b flags o r` = `PVMore` + pins: in the white-space shape the end-of-input option is OFF and `r`
+       is the START of the unfinished white space (`AfcWsStart`: `r = o`, or the byte before `r` is not SP / HT / CR / LF);
+       the two quoted shapes (any option word) already pin `r` (end of buffer / trailing back-slash).
+       `afc_moreBytes_at` (MoreBytes at `r` ⇒ `PVMoreAt`), `afc_moreBytes_complete` (⇐), `afc_moreBytes_iff`: MoreBytes at
+       `r` is characterised EXACTLY.  Tests: on `a = b SP CR LF` the unpinned `PVMore` holds at 6 although the parser
+       reports 5; `PVMoreAt` holds at 5 and not at 6.
+  Non-vacuity: every delivered theorem is followed by (or used in) an `example` on concrete inputs; the
+  `decide +kernel` computations are tests / non-vacuity, not the general claims.
+
+  NOT proved here: (S3) that the counts are unique in general (they are on the test object; in general it needs that
+  the `val` spans of different lines do not overlap, which is not derived for lines that are not stored); objects
+  suspended in the middle of a header line other than through the one-shot equivalence (growing prefixes within the
+  size limit).  (S4) the restricted form of `rc_block_verdicts_schedule` (the verdict list; it would need the hypothesis
+  for the line starts up to the returned offset of a rejected / suspended block) — the soundness, iff and report forms
+  are done.  (S10) the witness for `MoreBytes` with the end-of-input option.  (S6) the object returned with MoreBytes.
 -/
 import Sipsp.Proofs.HnoExact
 import Sipsp.Proofs.ResumedConverse
@@ -340,6 +382,156 @@ theorem afc_values_pinned_schedule_init (flags : Nat) (o : Nat) (m0 : PSIPMsg) (
   exact ⟨b, hb, mlf_growing_last hg hB b hb, h,
     afc_values_pinned_init b o m0 len kh kc hdrs cts flags (hfit b hb) (ho b hb) h⟩
 
+/-! #### the list of accepted lines does not change when bytes are appended; the schedule form on the LAST buffer -/
+
+/-- a header block that is not suspended has the same accepted lines in every extension of the buffer (any fuel that
+    is enough) -/
+theorem afc_trace_app (b s : Buf) (offs : Nat) (hl : HdrLst) (hb : Option PHdrVals)
+    (hok1 : hlsOK b hl) (hok2 : hbOK b offs hb) (fuel fuel' : Nat) (hf : b.size - offs < fuel)
+    (hf' : (b ++ s).size - offs < fuel') (hr : (parseHeaders b offs hl hb).2.1 ≠ .moreBytes) :
+    afcTrace (b ++ s) fuel' offs hl hb = afcTrace b fuel offs hl hb := by
+  induction hk : b.size - offs using Nat.strongRecOn generalizing offs hl hb fuel fuel' with
+  | _ k ih =>
+    by_cases hlt : offs < b.size
+    · obtain ⟨f, rfl⟩ : ∃ f, fuel = f + 1 := ⟨fuel - 1, by omega⟩
+      obtain ⟨f', rfl⟩ : ∃ f', fuel' = f' + 1 := ⟨fuel' - 1, by omega⟩
+      have hltB : offs < (b ++ s).size := by rw [Array.size_append]; omega
+      rcases hp : parseHdrLine b offs hl.cur hb with ⟨n, e1, h, hb1⟩
+      have hI : hlOK b offs hl.cur hb := ⟨by omega, hlsOK_cur hok1, hok2⟩
+      have hm : e1 ≠ .moreBytes := by
+        intro hm; subst hm
+        apply hr
+        rw [parseHeaders, if_pos hlt, hp]
+      have hst := parseHdrLine_stable b s offs hl.cur hb hI hp hm
+      rw [afcTrace, afcTrace, hst, hp]
+      simp only
+      by_cases hc : e1 = .ok ∧ offs < n
+      · obtain ⟨rfl, hg⟩ := hc
+        rw [if_pos ⟨hltB, rfl, hg⟩, if_pos ⟨hlt, rfl, hg⟩]
+        have hpost := parseHdrLine_post b offs hl.cur hb hI hp (Or.inl rfl)
+        congr 1
+        refine ih (b.size - n) (by omega) n _ hb1 (hlsOK_next h hok1) hpost.2 f f' (by omega)
+          (by rw [Array.size_append] at hf' ⊢; omega) ?_ rfl
+        intro hh
+        apply hr
+        rw [parseHeaders, if_pos hlt, hp]
+        simp only
+        rw [if_pos hg]
+        exact hh
+      · rw [if_neg (fun hh => hc ⟨hh.2.1, hh.2.2⟩), if_neg (fun hh => hc ⟨hh.2.1, hh.2.2⟩)]
+    · exfalso
+      apply hr
+      rw [parseHeaders, if_neg hlt]
+
+/-- a message parsed with OK has the same accepted header lines in every extension of the buffer -/
+theorem afc_msgLines_app (b t : Buf) (o : Nat) (m : PSIPMsg) (flags : Nat) (hfit : b.size ≤ 65535)
+    (hok : msgOK2 b o m) (H : MsgSafe b o m) (hst : m.state = .init) {o' : Nat} {m' : PSIPMsg}
+    (hr : parseSIPMsg b o m flags = (o', .ok, m')) : afcMsgLines (b ++ t) o m = afcMsgLines b o m := by
+  obtain ⟨ho, hfl, hrest⟩ := hok
+  obtain ⟨hls, hvs, hpe⟩ := hrest (by rw [hst]; decide)
+  obtain ⟨o1, fl, h, hl, hv, hp, hh, _⟩ := parseSIPMsg_ok_path b o m flags hst hr
+  have hF := parseFLine_safe b o m.fl hfit (H.flS (Or.inl hst))
+  have hge := parseFLine_ge b o m.fl
+  rw [hp] at hF hge
+  simp only at hF hge
+  have hpB := parseFLine_stable b t o m.fl (hfl (Or.inl hst)) hfit hp (by decide)
+  unfold afcMsgLines
+  rw [hpB, hp]
+  exact afc_trace_app b t o1 m.hl (some m.pv) hls (hvOK_mono hvs hge hF.ho) (b.size + 1) ((b ++ t).size + 1)
+    (by omega) (by omega) (by rw [hh]; intro hq; cases hq)
+
+/-- **[C05] the pinned statement under every chunk schedule from Init, on the LAST buffer `B` of the schedule**
+    (`l.getLast? = some B`): if the chain of resumed calls over growing prefixes ends with OK, the final object satisfies
+    `AfcMsg` relative to the accepted header lines of `B` itself -/
+theorem afc_values_pinned_last (flags : Nat) (o : Nat) (m0 : PSIPMsg) (len kh kc : Nat)
+    (hdrs cts : Option Unit) (l : List Buf) (hg : Growing l) (hfit : ∀ x ∈ l, x.size ≤ 65535)
+    (ho : ∀ b ∈ l, o ≤ b.size) {B : Buf} (hB : l.getLast? = some B) {o' : Nat} {m' : PSIPMsg}
+    (hr : resumeRun (C01.msgP flags) o
+      (m0.init len (hdrs.map fun _ => Array.replicate kh {}) (cts.map fun _ => Array.replicate kc {})) l = (o', .ok, m')) :
+    AfcMsg (afcMsgLines B o (m0.init len (hdrs.map fun _ => Array.replicate kh {}) (cts.map fun _ => Array.replicate kc {})))
+      m' := by
+  have hne : l ≠ [] := by intro hh; rw [hh] at hB; cases hB
+  obtain ⟨b, hb, h⟩ := flo_schedule_init flags o m0 len kh kc hdrs cts l hg hfit hne ho hr
+  obtain ⟨t, rfl⟩ := mlf_growing_last hg hB b hb
+  obtain ⟨_, _, q3⟩ := MsgLo_init o m0 len kh kc hdrs cts
+  rw [afc_msgLines_app b t o _ flags (hfit b hb) (msgOK2_init b o (ho b hb) m0 len kh kc hdrs cts)
+    (MsgSafe_init b o (ho b hb) m0 len kh kc hdrs cts) q3 h]
+  exact afc_values_pinned_init b o m0 len kh kc hdrs cts flags (hfit b hb) (ho b hb) h
+
+/-! #### the list of accepted lines IS the chain of lines ParseHeaders reports -/
+
+/-- **the accepted lines, as computed by `afcTrace`, are the lines of the accepted text** (list object in the state of
+    a new / reset one, ANY values object): if ParseHeaders ends with OK (or "empty"), then `afcTrace` lists a chain of
+    lines of the text `[o, e)` — each entry has the name as written and the type that name classifies as (`HsChain`) —
+    and the list object is exactly what accepting these entries, in order, produces -/
+theorem afc_trace_chain (b : Buf) (hfit : b.size ≤ 65535) :
+    ∀ (k o : Nat) (hl : HdrLst) (hb : Option PHdrVals) (fuel : Nat), b.size - o = k → k < fuel → HlsClean hl →
+      hl.cur = {} → ∀ {e : Nat} {er : Err} {hl' : HdrLst} {hb' : Option PHdrVals},
+        parseHeaders b o hl hb = (e, er, hl', hb') → (er = .ok ∨ er = .empty) →
+        HsChain b o (afcTrace b fuel o hl hb) e ∧
+          hl' = (hl.acceptAll (afcTrace b fuel o hl hb)).setCur { state := .fin } := by
+  intro k
+  induction k using Nat.strongRecOn with
+  | _ k ih =>
+    intro o hl hb fuel hk hfu hc hcur e er hl' hb' hr her
+    obtain ⟨f, rfl⟩ : ∃ f, fuel = f + 1 := ⟨fuel - 1, by omega⟩
+    rw [parseHeaders] at hr
+    by_cases hlt : o < b.size
+    · rw [if_pos hlt, hcur] at hr
+      rcases hp : parseHdrLine b o {} hb with ⟨n, e1, h, hb1⟩
+      rw [hp] at hr
+      rw [afcTrace, hcur, hp]
+      simp only
+      cases e1 <;> simp only at hr
+      case ok =>
+        have hname := hs_line_name_type_sound b o hb hfit hp
+        by_cases hgt : o < n
+        · rw [if_pos hgt] at hr
+          rw [if_pos ⟨hlt, rfl, hgt⟩]
+          have hcl := accept_clean hl h hc
+          obtain ⟨H, h1⟩ := ih (b.size - n) (by omega) n _ hb1 f rfl (by omega) hcl.1 hcl.2 hr her
+          exact ⟨HsChain.cons o n e h _ hname hgt H, h1⟩
+        · rw [if_neg hgt] at hr
+          cases hr
+          rcases her with h | h <;> cases h
+      case empty =>
+        obtain ⟨hem, rfl, _⟩ := hs_line_empty_all b o hb hfit hp
+        rw [if_neg (fun hh => by cases hh.2.1)]
+        by_cases hn : hl.n > 0
+        · rw [if_pos hn] at hr; cases hr; exact ⟨HsChain.nil o _ hem, rfl⟩
+        · rw [if_neg hn] at hr; cases hr; exact ⟨HsChain.nil o _ hem, rfl⟩
+      all_goals (cases hr; rcases her with h | h <;> cases h)
+    · rw [if_neg hlt] at hr
+      cases hr
+      rcases her with h | h <;> cases h
+
+/-- **message from Init**: the list `afcMsgLines` is a chain of lines of the header block — it starts where the first line
+    ends, every entry has the name as written and the type of that name — and the header list of the final object is
+    what accepting exactly these entries, in order, produces -/
+theorem afc_msgLines_chain (b : Buf) (o : Nat) (m0 : PSIPMsg) (len kh kc : Nat) (hdrs cts : Option Unit)
+    (flags : Nat) (hfit : b.size ≤ 65535) {o' : Nat} {m' : PSIPMsg}
+    (hr : parseSIPMsg b o (m0.init len (hdrs.map fun _ => Array.replicate kh {}) (cts.map fun _ => Array.replicate kc {}))
+      flags = (o', .ok, m')) :
+    ∃ e, HsChain b (parseFLine b o {}).1
+        (afcMsgLines b o (m0.init len (hdrs.map fun _ => Array.replicate kh {}) (cts.map fun _ => Array.replicate kc {}))) e ∧
+      m'.hl = ((hsNew (rcCap hdrs kh)).acceptAll
+        (afcMsgLines b o (m0.init len (hdrs.map fun _ => Array.replicate kh {}) (cts.map fun _ => Array.replicate kc {})))).setCur
+          { state := .fin } := by
+  obtain ⟨q1, q2, q3⟩ := rc_init_lists m0 len kh kc hdrs cts
+  obtain ⟨o1, fl, h, hl, hv, hp, hh, hbody⟩ := parseSIPMsg_ok_path b o _ flags q1 hr
+  have hfl : (m0.init len (hdrs.map fun _ => Array.replicate kh {}) (cts.map fun _ => Array.replicate kc {})).fl = {} := by
+    cases hdrs <;> cases cts <;> rfl
+  unfold afcMsgLines
+  rw [hfl] at hp ⊢
+  rw [hp]
+  simp only
+  rw [q2] at hh ⊢
+  obtain ⟨H, h1⟩ := afc_trace_chain b hfit (b.size - o1) o1 (hsNew (rcCap hdrs kh)) _ (b.size + 1) rfl (by omega)
+    (hsNew_ok _).1 (hsNew_ok _).2 hh (Or.inl rfl)
+  obtain ⟨_, k2, _⟩ := flo_msgBody_keeps b h (afaBodyEntry _ o fl hl hv) flags
+  rw [hbody] at k2
+  exact ⟨h, H, by rw [k2]; exact h1⟩
+
 /-! #### what `AfcAssoc` says: the map form -/
 
 theorem afc_hxStart_mono (cnt : List Nat) {a c : Nat} (h : a ≤ c) : hxStart cnt a ≤ hxStart cnt c := by
@@ -561,6 +753,33 @@ theorem afcEx_counts_determined (cnt : List Nat) (h2 : cnt.length = afcExM.pv.co
     rcases this with ⟨rfl, rfl⟩ | ⟨rfl, rfl⟩
     · exact absurd h5 afcEx_wrong_counts_refuted
     · rfl
+
+/-- a schedule for the test message: cut inside the first Contact value and inside the second Contact line -/
+def afcExCuts : List Buf := [afcExBuf.extract 0 40, afcExBuf.extract 0 70, afcExBuf]
+
+/-- non-vacuity of `afc_values_pinned_last` / `afc_values_pinned_schedule_init` (test: the chain of resumed calls ends with
+    OK; the statement is relative to the accepted lines of the WHOLE buffer) and of `afc_msgLines_chain` -/
+example : ∃ o' m', resumeRun (C01.msgP 0) 0 afcExInit afcExCuts = (o', .ok, m') ∧
+    AfcMsg (afcMsgLines afcExBuf 0 afcExInit) m' := by
+  have hg : Growing afcExCuts :=
+    ⟨⟨afcExBuf.extract 40 70, by decide +kernel⟩, ⟨afcExBuf.extract 70 afcExBuf.size, by decide +kernel⟩, trivial⟩
+  have hfit : ∀ x ∈ afcExCuts, x.size ≤ 65535 := by decide +kernel
+  have he : (resumeRun (C01.msgP 0) 0 afcExInit afcExCuts).2.1 = .ok := by decide +kernel
+  rcases hp : resumeRun (C01.msgP 0) 0 afcExInit afcExCuts with ⟨o', e', m'⟩
+  rw [hp] at he
+  simp only at he
+  subst he
+  exact ⟨o', m', rfl, afc_values_pinned_last 0 0 {} 0 1 4 (some ()) (some ()) afcExCuts hg hfit
+    (fun _ _ => Nat.zero_le _) (B := afcExBuf) rfl hp⟩
+
+example : ∃ e, HsChain afcExBuf (parseFLine afcExBuf 0 {}).1 (afcMsgLines afcExBuf 0 afcExInit) e := by
+  have h : (parseSIPMsg afcExBuf 0 afcExInit 0).2.1 = .ok := by decide +kernel
+  rcases hp : parseSIPMsg afcExBuf 0 afcExInit 0 with ⟨o', e', m'⟩
+  rw [hp] at h
+  simp only at h
+  subst h
+  obtain ⟨e, H, _⟩ := afc_msgLines_chain afcExBuf 0 {} 0 1 4 (some ()) (some ()) 0 (by decide +kernel) hp
+  exact ⟨e, H⟩
 
 /-! ## (S10) C17: the completions of a rejected / suspended parameter text, with the witness explicit -/
 
@@ -1625,5 +1844,9 @@ example : PVMore "a = b \r\n".toUTF8.data 0 0 6 := by
 example : (parseTokenParam "a = b \r\n".toUTF8.data 0 {} POptInputEndF).2.1 = .eoh ∧
     (parseTokenParam "a=\"bc".toUTF8.data 0 {} POptInputEndF).1 = 5 ∧
     (parseTokenParam "a=\"bc".toUTF8.data 0 {} POptInputEndF).2.1 = .moreBytes := by decide +kernel
+
+/-- non-vacuity of the `quoted` shape of `PVMoreAt` (through `afc_moreBytes_iff`), end-of-input option set -/
+example : PVMoreAt "a=\"bc".toUTF8.data POptInputEndF 0 5 :=
+  (afc_moreBytes_iff _ 0 POptInputEndF 5).1 (by decide +kernel)
 
 end Sipsp
